@@ -56,6 +56,9 @@ func main() {
 	r.Assume("contenders use distinct election ids (cmd/syncer.go passes server.listenPeer); a contender whose call failed at connection level reconnects, as the syncer restarts")
 	r.Assume("redis cluster-mode lease store (pkg/redis/client/cluster) is not exercised")
 
+	for _, k := range []string{"porcupine_ok", "porcupine_illegal", "porcupine_unknown", "store_error_replies"} {
+		r.Count(k, 0) // always present in the evidence
+	}
 	if !r.Replaying() || r.WantCase("config") {
 		checkConfig(r)
 	}
@@ -423,7 +426,7 @@ func (h *history) run() {
 		h.r.Seen("scripts_seen", s.SHA[:12]+" "+s.FirstLine)
 	}
 	if us, uc := st.Unsupported(); len(us) > 0 || len(uc) > 0 {
-		h.r.Inconclusive("%s: lease store could not serve the tool: unsupported scripts %q, unknown commands %q", h.p.Case, us, uc)
+		h.r.Inconclusive("%s: lease store could not serve the tool: %d script runs outside the minilua subset %q, unknown commands %q", h.p.Case, len(us), uniq(us), uniq(uc))
 	}
 }
 
@@ -803,16 +806,19 @@ func (h *history) linearizable(si int, recs []*opRec, init, final leaseState, no
 		h.r.Inconclusive("%s step %d: porcupine timed out", h.p.Case, si)
 	case porcupine.Illegal:
 		h.r.Count("porcupine_illegal", 1)
-		kinds := map[string]bool{}
-		for _, rec := range recs {
-			kinds[rec.Kind] = true
-		}
-		var ks []string
-		for k := range kinds {
-			ks = append(ks, k)
-		}
-		sort.Strings(ks)
-		h.violation("not-linearizable|"+strings.Join(ks, "+"), fmt.Sprintf("burst %d at t=%d is not linearizable w.r.t. the lease object from %s to %s", si, now, init, final),
+		h.violation("not-linearizable", fmt.Sprintf("burst %d at t=%d is not linearizable w.r.t. the lease object from %s to %s", si, now, init, final),
 			map[string]any{"burst_ops": recs, "initial": init, "final": final, "now": now})
 	}
+}
+
+func uniq(in []string) []string {
+	seen := map[string]bool{}
+	var out []string
+	for _, s := range in {
+		if !seen[s] {
+			seen[s] = true
+			out = append(out, s)
+		}
+	}
+	return out
 }
